@@ -79,6 +79,7 @@ func c13(c *core.Ctx) {
 	c.Rule("C13.container", "every insertion into a long-lived container of the channel whose key or growth is controlled by the peer (SecureChannel.chunks, SecureChannel.instances) is bounded: per-key length and number of keys are compared with a negotiated or constant limit before/after the insertion with an error path", 2)
 	c.Rule("C13.alloc", "the size of the per-frame receive buffer is bounded above by a locally chosen value (the peer's Acknowledge is compared with an upper limit before it sizes the allocation)", 1)
 
+	c13Nil(c, fns)
 	// bounds
 	for _, f := range fns {
 		if shortOf(f) == "uacp" && (f.Name() == "Receive" || f.Name() == "Handshake" || f.Name() == "srvhandshake") {
